@@ -24,7 +24,27 @@ GROUPS.append(dict(name='decode_frame_fs8000', tier='off', cls='F', tu='C01_deco
     bounds='Fs = 8000 (all frame durations 2.5-120 ms), payload of <= 6 symbolic bytes, decoder gain 0; recursion depth <= 8',
     what='opus_decode_frame glue: result range, exact duration of a real frame, concealment succeeds with a multiple of 2.5 ms, buffers handed to SILK/CELT are large enough, redundancy offsets inside the packet, no internal abort'))
 
-for (_mf, _tier) in ((4, 'quick'), (8, 'thorough')):
+# concrete shapes (channels, TOC duration in 2.5 ms units, output buffer in samples at 8 kHz): exact-size output object
+_SHAPES = [  # (channels, tocf, buf, tier)
+   (2, 1, 20, 'quick'), (1, 2, 40, 'thorough'), (2, 4, 80, 'thorough'), (1, 8, 160, 'thorough'),    # buffer == TOC duration
+   (1, 4, 79, 'quick'), (2, 8, 100, 'thorough'),                                                   # buffer smaller than the TOC duration
+   (1, 1, 60, 'quick'), (2, 2, 60, 'thorough'), (1, 8, 220, 'thorough'),                           # PLC / FEC requests longer than the frame (7.5 ms remainders: 60 = 3 x 2.5 ms, 220 = 20 + 7.5 ms)
+   (1, 16, 320, 'thorough'), (2, 24, 480, 'thorough'), (1, 8, 960, 'thorough'), (2, 8, 330, 'thorough'),
+]
+for (_ch, _tf, _buf, _tier) in _SHAPES:
+  for (_cn, _ca, _nc, _sp) in (('plc', 'null_data', 1 + (_buf % 20 == 0), 1), ('dtx', '!null_data&&len<=1', 1 + (_buf % 20 == 0), 2), ('real', '!null_data&&len>=2', 1 + (_buf >= _tf * 20), 3)):
+    GROUPS.append(dict(name='decode_frame_c%dt%db%d_%s' % (_ch, _tf, _buf, _cn), tier=_tier, cls='B', tu='C01_decode_frame.c', entry='h_decode_frame', dfcc=False, canary='real', expect_canaries=_nc,
+        defines=['-DVERIF_FS=8000', '-U__SSE__', '-DVERIF_CH=%d' % _ch, '-DVERIF_TOCF=%d' % _tf, '-DVERIF_BUF=%d' % _buf, '-DVERIF_EXTRA_ASSUME=' + _ca, '-DVERIF_SPLIT=%d' % _sp], unwind=14,
+        unwind_src=[(r'i<audiosize\*st->channels', _buf * _ch + 2), (r'i<frame_size\*st->channels', _buf * _ch + 2), (r'i<st->channels\*F2_5', 42), (r'i<F2_5|i<overlap', 22)], timeout=3600, mem_gb=20,
+        cbmc_flags=['--object-bits', '10', '--slice-formula'],
+        ignore=[(r'(same object violation|arithmetic overflow on signed -) in pcm - pcm_silk', 'OPUS_COPY type-check term 0*((dst)-(src)) on distinct buffers (CBMC: pointer difference across objects)')],
+        functions=['opus_decode_frame', 'smooth_fade', 'ec_dec_init', 'ec_dec_bit_logp', 'ec_dec_uint', 'ec_tell'],
+        trusted=['ASSUMED frame contracts (stubs) of silk_Decode, celt_decode_with_ec(_dred), opus_custom_decoder_ctl, silk_ResetDecoder: result ranges and write extents only; each asserts the validity of the buffers it receives',
+                 'the four scratch arrays of opus_decode_frame get a fixed capacity; requested sizes are tracked in ghost state and checked at the callee boundaries'],
+        bounds='Fs = 8000, %d channel(s), TOC duration %g ms, output buffer of exactly %d samples per channel, %s, any modes/previous modes, decoder gain 0' % (_ch, _tf * 2.5, _buf, {'plc': 'lost frame (null data)', 'dtx': 'payload of 0-1 bytes', 'real': 'payload of 2-6 symbolic bytes'}[_cn]),
+        what='opus_decode_frame glue: result range, exact duration of a real frame, concealment succeeds with a multiple of 2.5 ms, every write inside the exact-size buffer, buffers handed to SILK/CELT large enough, redundancy offsets inside the packet, no internal abort'))
+
+for (_mf, _tier) in ((2, 'off'), (4, 'off')):
     GROUPS.append(dict(name='decode_frame_fs8000_le%dms' % (_mf * 5 // 2), tier=_tier, cls='B', tu='C01_decode_frame.c', entry='h_decode_frame', dfcc=False, canary='real', expect_canaries=3,
         defines=['-DVERIF_FS=8000', '-U__SSE__', '-DVERIF_MAXF=%d' % _mf], unwind=14,
         unwind_src=[(r'i<audiosize\*st->channels', 40 * _mf + 4), (r'i<frame_size\*st->channels', 40 * _mf + 4), (r'i<st->channels\*F2_5', 42), (r'i<F2_5|i<overlap', 22)], timeout=3600, mem_gb=20,
